@@ -300,4 +300,84 @@ def run(tier):
             " -> ".join(cyc), [order.get((cyc[i], cyc[i + 1])) for i in range(len(cyc) - 1)]))
     res.instance("C20.R3", "lock order edges: %s" % (sorted("%s->%s@%s" % (a, b, w) for (a, b), w in order.items()) or "none (locks are never nested)"),
                  cyc is None, finding=f)
+    # ------------------------------------------------------------------ R4
+    res.rule("C20.R4", "a ticket-key node used after g_sessTicketLock was released and re-acquired was pinned (inUse = 1) before the release")
+    from sa import cfgutil as cu
+    from sa.pp import pp as _pp
+
+    def lock_call(nd, which):
+        if nd.get("k") != "call" or nd.get("fn") != which or not nd.get("a"):
+            return False
+        return any(m.get("k") == "var" and m.get("n") == "g_sessTicketLock" for m in walk(nd["a"][0]))
+    n4 = 0
+    for fn in sorted(prog.functions.values(), key=lambda f: f.qname):
+        if not fn.blocks:
+            continue
+        unl = cu.find_sites(fn, lambda nd: lock_call(nd, "psUnlockMutex"))
+        lck = cu.find_sites(fn, lambda nd: lock_call(nd, "psLockMutex"))
+        if not unl or not lck:
+            continue
+        succ = {b["id"]: [sc.get("b") for sc in b["succ"] if sc.get("b") is not None] for b in fn.blocks}
+
+        def reach_from(bid):
+            seen, st = set(), [bid]
+            while st:
+                x = st.pop()
+                if x in seen:
+                    continue
+                seen.add(x)
+                st.extend(succ.get(x, []))
+            return seen
+        for (ubid, uidx, uln, ucall) in unl:
+            after_unlock = reach_from(ubid)
+            relocks = [l for l in lck if l[0] in after_unlock and (l[0] != ubid or True)]
+            relocks = [l for l in relocks if not (l[0] == ubid and cu.block_exprs(fn.bmap[ubid]) and
+                                                  [i for i, _, _ in cu.block_exprs(fn.bmap[ubid])].index(l[1]) < [i for i, _, _ in cu.block_exprs(fn.bmap[ubid])].index(uidx))]
+            if not relocks:
+                continue
+            after_relock = set()
+            for l in relocks:
+                after_relock |= reach_from(l[0])
+            # local pointers to ticket-key nodes dereferenced after the relock
+            cands = {}
+            for bid in after_relock:
+                for i, ln, x in cu.block_exprs(fn.bmap[bid]):
+                    for m in walk(x):
+                        if m.get("k") == "mem" and m.get("arrow"):
+                            v = strip(m.get("b") or {})
+                            while v is not None and v.get("k") == "cast":
+                                v = strip(v["e"])
+                            if v is not None and v.get("k") == "var" and v.get("sc") == "l" and ("sessTicketKey" in (v.get("t") or "") or "psSessionTicketKeys" in (v.get("t") or "")):
+                                cands[v["id"]] = v
+            for vid, v in sorted(cands.items()):
+                n4 += 1
+
+                def pins(x, vid=vid):
+                    for m in walk(x):
+                        if m.get("k") == "bin" and m["op"] == "=" and (strip(m["l"]) or {}).get("f") == "inUse":
+                            bse = strip((strip(m["l"]) or {}).get("b") or {})
+                            while bse is not None and bse.get("k") == "cast":
+                                bse = strip(bse["e"])
+                            if bse is not None and bse.get("id") == vid and not ((strip(m["r"]) or {}).get("k") == "int" and strip(m["r"])["v"] == 0):
+                                return True
+                    return False
+
+                def null_edge(b, k, vname=v["n"]):
+                    t = b.get("term")
+                    if t is None or "c" not in t or len(b["succ"]) != 2:
+                        return False
+                    return any((txt == vname and not tr) for (txt, tr, nd) in cu._cond_atoms(t["c"], k == 0))
+                esc = cu.escapes(fn, (fn.entry, None), pins, exempt_edge=null_edge,
+                                 target_expr=lambda x, ucall=ucall: any(m is ucall for m in walk(x)))
+                f_ = None
+                if esc is not None:
+                    f_ = Finding(PROP, "C20.R4", fn.name, "%s not pinned across the unlocked window" % v["n"],
+                                 "%s:%s %s(): g_sessTicketLock is released at line %s and re-acquired later; %s (a node of the shared "
+                                 "ticket-key list) is used after that, but a path reaches the release with %s possibly non-NULL and "
+                                 "without `%s->inUse = 1` (via lines %s): matrixSslDeleteSessionTicketKey running in the window frees "
+                                 "the node (use after free / a session resuming under a key that was rotated out)" % (
+                                     fn.relfile, uln, fn.name, uln, v["n"], v["n"], v["n"], [p_[1] for p_ in esc[-6:]]),
+                                 file=fn.relfile, line=uln)
+                res.instance("C20.R4", "%s: %s pinned before the unlock at line %s" % (fn.name, v["n"], uln), esc is None, finding=f_)
+    res.floor("C20.R4", 1)
     return res.finish()
